@@ -248,6 +248,117 @@ mod imp {
         }
     }
 
+    /// Random sequences over a wide state (many slots, many writes per branch): the undo log
+    /// then holds long runs of records per branch, which three slots can never produce.
+    pub fn random_seq_wide(rng: &mut Rng, len: usize, nslots: usize, st: &mut SeqStats) {
+        let mut real = VerifState::new(nslots, true);
+        let mut slots = vec![usize::MAX; nslots];
+        let mut aux: Vec<usize> = vec![];
+        let mut branches: Vec<(usize, Vec<usize>, Vec<usize>)> = vec![];
+        let mut next_id = 1usize;
+        let mut trail: Vec<String> = vec![];
+        let mut step = |real: &mut VerifState, slots: &mut Vec<usize>, aux: &mut Vec<usize>, branches: &mut Vec<(usize, Vec<usize>, Vec<usize>)>, what: u64, rng: &mut Rng, trail: &mut Vec<String>, st: &mut SeqStats| -> Result<(), String> {
+            match what {
+                0..=59 => {
+                    let (s, v) = (rng.below(nslots as u64) as usize, 1 + rng.below(5) as usize);
+                    trail.push(format!("save({},{})", s, v));
+                    slots[s] = v;
+                    real.save(s, v);
+                }
+                60..=74 => {
+                    trail.push("push".into());
+                    branches.push((next_id, slots.clone(), aux.clone()));
+                    if !real.push(next_id, next_id * 10) {
+                        return Err("push refused".into());
+                    }
+                    next_id += 1;
+                }
+                75..=82 if !branches.is_empty() => {
+                    trail.push("pop".into());
+                    let (id, sl, au) = branches.pop().unwrap();
+                    *slots = sl;
+                    *aux = au;
+                    st.pops += 1;
+                    let got = real.pop();
+                    if got != (id, id * 10) {
+                        return Err(format!("pop returned {:?}, the branch was created as {:?}", got, (id, id * 10)));
+                    }
+                }
+                83..=89 => {
+                    trail.push("begin".into());
+                    aux.push(branches.len());
+                    let c = real.backtrack_count();
+                    real.stack_push(c);
+                }
+                90..=96 if !aux.is_empty() && *aux.last().unwrap() <= branches.len() => {
+                    trail.push("end".into());
+                    let c = aux.pop().unwrap();
+                    st.cuts += 1;
+                    if branches.len() - c >= 2 {
+                        st.cuts_multi += 1;
+                    }
+                    branches.truncate(c);
+                    let got = real.stack_pop();
+                    if got != c {
+                        return Err(format!("EndAtomic popped {}, the model's entry is {}", got, c));
+                    }
+                    real.backtrack_cut(got);
+                }
+                _ => return Ok(()),
+            }
+            for s in 0..nslots {
+                if real.get(s) != slots[s] {
+                    return Err(format!("slot {} = {} but the model has {}", s, real.get(s) as isize, slots[s] as isize));
+                }
+            }
+            if real.aux() != *aux {
+                return Err(format!("auxiliary stack {:?} but the model has {:?}", real.aux(), aux));
+            }
+            if real.backtrack_count() != branches.len() {
+                return Err(format!("{} branches but the model has {}", real.backtrack_count(), branches.len()));
+            }
+            Ok(())
+        };
+        for _ in 0..len {
+            st.nodes += 1;
+            let what = rng.below(100);
+            let r = std::panic::catch_unwind(std::panic::AssertUnwindSafe(|| step(&mut real, &mut slots, &mut aux, &mut branches, what, rng, &mut trail, st)));
+            match r {
+                Ok(Ok(())) => {}
+                Ok(Err(e)) => {
+                    st.fault = Some(format!("{} after {}", e, trail.join(" ")));
+                    return;
+                }
+                Err(p) => {
+                    st.fault = Some(format!("panic {} after {}", panic_msg(&*p), trail.join(" ")));
+                    return;
+                }
+            }
+        }
+        // unwind everything (an aux entry that points above the remaining branches is dead)
+        while !branches.is_empty() {
+            st.nodes += 1;
+            let r = std::panic::catch_unwind(std::panic::AssertUnwindSafe(|| step(&mut real, &mut slots, &mut aux, &mut branches, 75, rng, &mut trail, st)));
+            match r {
+                Ok(Ok(())) => {}
+                Ok(Err(e)) => {
+                    st.fault = Some(format!("{} after {}", e, trail.join(" ")));
+                    return;
+                }
+                Err(p) => {
+                    st.fault = Some(format!("panic {} after {}", panic_msg(&*p), trail.join(" ")));
+                    return;
+                }
+            }
+        }
+        let s = real.stats();
+        st.shadow_checks += s.shadow_checks;
+        st.shadow_faults += s.shadow_faults;
+        if s.shadow_faults > 0 && st.fault.is_none() {
+            st.fault = Some(format!("lock-step shadow: {} after {}", s.first_fault.unwrap_or_default(), trail.join(" ")));
+        }
+    }
+
     pub fn sequences(ctx: &Ctx, acc: &mut Acc) -> (u64, u64, u64, serde_json::Value) {
         let depth = ctx.tier.pick(8, 9);
         let ops = all_ops();
@@ -307,7 +418,12 @@ mod imp {
             let mut st = SeqStats::default();
             for i in 0..nrand / 64 {
                 let len = if ctx.tier == Tier::Thorough && i % 4 == 0 { 1000 } else { 50 + rng.below(250) as usize };
-                random_seq(&mut rng, len, &ops, &mut st);
+                if i % 2 == 0 {
+                    random_seq(&mut rng, len, &ops, &mut st);
+                } else {
+                    // 6, 12 or 24 slots
+                    random_seq_wide(&mut rng, len, 6 << (i / 2 % 3), &mut st);
+                }
                 if let Some(f) = st.fault.take() {
                     acc.violate(Violation::new("C20", "sequence-model", "", "", 0, "State operations (random, shadow on)", "the whole-state-copy model".into(), f));
                     break;
@@ -344,7 +460,7 @@ pub fn run(ctx: &Ctx) -> Outcome {
     let mut patterns = gen::products(&g.upto(ctx.tier.pick(2, 3)));
     patterns.extend(gen::random_patterns(ctx.seed ^ 20, ctx.tier.pick(20_000, 100_000), true, 6, 14));
     let texts = spaces::texts_c01(3);
-    let cfg = crate::sweep::SweepCfg { prop: "C20", backtrack_limit: Some(20_000), step_cap: Some(5_000_000), shadow: true };
+    let cfg = crate::sweep::SweepCfg { prop: "C20", backtrack_limit: Some(20_000), step_cap: Some(5_000_000), shadow: true, casei_every: 0 };
     let a3 = crate::sweep::sweep(&cfg, &patterns, |c, acc| {
         for t in &texts {
             for from in gen::offsets(t) {
@@ -364,7 +480,7 @@ pub fn run(ctx: &Ctx) -> Outcome {
     let mut out = Outcome::new(acc);
     out.distinct_nontrivial = states;
     out.exhaustive = true;
-    out.rule = format!("(1) all valid sequences of up to {} operations {{create branch, abandon branch, write slot (3 slots x 3 values), enter atomic, commit atomic, raw push/pop on the auxiliary stack}} applied through hook H2 to the real State and to a model that stores a full copy of (slots, auxiliary stack) per branch; after every operation all slots, the auxiliary stack and the branch count are compared and abandon must return the created (pc, ix); two consecutive writes to one slot are represented by the second; plus seeded random sequences of 50-300 (thorough: also 1000) operations with the lock-step shadow on, unwound to the bottom. distinct_nontrivial = distinct model states visited. (2) program-level: lock-step shadow (hook H3) during real VM runs of {} committing-context products and random trees x all texts up to length 3 x every offset.", ctx.tier.pick(7, 9), patterns.len());
+    out.rule = format!("(1) all valid sequences of up to {} operations {{create branch, abandon branch, write slot (3 slots x 3 values), enter atomic, commit atomic, raw push/pop on the auxiliary stack}} applied through hook H2 to the real State and to a model that stores a full copy of (slots, auxiliary stack) per branch; after every operation all slots, the auxiliary stack and the branch count are compared and abandon must return the created (pc, ix); two consecutive writes to one slot are represented by the second; plus seeded random sequences of 50-300 (thorough: also 1000) operations with the lock-step shadow on, unwound to the bottom - half of them over 3 slots, half over a wide state of 6 / 12 / 24 slots and 5 values (60% writes, so one branch carries long runs of undo records). distinct_nontrivial = distinct model states visited. (2) program-level: lock-step shadow (hook H3) during real VM runs of {} committing-context products and random trees x all texts up to length 3 x every offset.", ctx.tier.pick(7, 9), patterns.len());
     out.assumptions = vec!["validity follows VM discipline: abandon only with a branch, commit only on an entry pushed by enter-atomic, raw pop only on a raw entry".into()];
     let (sc, cuts, cm, css) = (out.acc.hook.shadow_checks, out.acc.hook.cuts, out.acc.hook.cuts_multi, out.acc.hook.cuts_same_slot);
     let mut ex = extra;
